@@ -322,6 +322,99 @@ done:
     free(mtext);
 }
 
+/* ---- route `parseloop`: composite and scalar values alternating in ONE column of a loop read by the parser -------------
+   storeval parseloop 0 [@pairs] <value> | <value> | <value> …      (at least one value; the generator gives >= 3)
+   A scratch CIF with block b and a loop (_k, _x) holding one packet per value is written with cif_write and parsed back.
+   The parser re-uses one value object per column from packet to packet, so a list (table) in one packet followed by a
+   list (table) in the next shows whether the object is emptied in between.  Every packet is read back: get_value (first
+   packet, CIF_AMBIGUOUS_ITEM for several), packet iteration, cif_walk.
+   -> sv rc=<code> o=<v1>,<v2>,… g=<first> i=<x1>,<x2>,… w=<x1>,<x2>,… m=<field-level dumps from the iteration> */
+#define MAXLOOPVALS 64
+static void parse_loop(int argc, char **argv) {
+    UChar *names2[] = { NAME_K, NAME_X, NULL };
+    cif_value_tp *vals[MAXLOOPVALS];
+    int nvals = 0, pos = 3, brc, rc, n, first = 1;
+    cif_tp *scratch = NULL, *cif = NULL;
+    cif_block_tp *sb = NULL, *b = NULL;
+    cif_loop_tp *loop = NULL;
+    cif_packet_tp *pkt = NULL;
+    cif_pktitr_tp *it = NULL;
+    cif_value_tp *g = NULL;
+    char *otext = NULL, *wtext = NULL, *mtext = NULL;
+    size_t osz = 0, wsz = 0, msz = 0;
+    FILE *o, *mm, *f;
+    while (pos < argc && argv[pos][0] == '@') pos++;
+    while (pos < argc && nvals < MAXLOOPVALS) {
+        cif_value_tp *v = build_value(argv, argc, &pos, &brc);
+        if (v == NULL) break;
+        vals[nvals++] = v;
+        if (pos < argc) { if (strcmp(argv[pos], "|") != 0) break; pos++; if (pos == argc) { pos = -1; break; } }
+    }
+    if (nvals == 0 || pos != argc) { for (n = 0; n < nvals; n++) cif_value_free(vals[n]); OUT("bad-op"); return; }
+    o = open_memstream(&otext, &osz);
+    for (n = 0; n < nvals; n++) { if (n) fprintf(o, ","); fdump_pub(o, vals[n]); }
+    fclose(o);
+    f = tmpfile();
+    rc = cif_create(&scratch);
+    if (rc == CIF_OK) rc = cif_create_block(scratch, CODE_B, &sb);
+    if (rc == CIF_OK) rc = cif_container_create_loop(sb, NULL, names2, &loop);
+    for (n = 0; rc == CIF_OK && n < nvals; n++) {
+        pkt = key_packet(1 + n % 9);
+        rc = pkt ? cif_packet_set_item(pkt, NAME_X, vals[n]) : CIF_ERROR;
+        if (rc == CIF_OK) rc = cif_loop_add_packet(loop, pkt);
+        if (pkt) cif_packet_free(pkt);
+        pkt = NULL;
+    }
+    if (loop) { cif_loop_free(loop); loop = NULL; }
+    if (rc == CIF_OK) rc = cif_write(f, NULL, scratch);
+    if (sb) cif_container_free(sb);
+    if (scratch) cif_destroy(scratch);
+    for (n = 0; n < nvals; n++) { mutate(vals[n], 2); cif_value_free(vals[n]); }
+    if (rc == CIF_OK) {
+        fflush(f); rewind(f);
+        rc = cif_parse(f, NULL, &cif);
+        if (rc == CIF_OK) rc = cif_get_block(cif, CODE_B, &b);
+    }
+    fclose(f);
+    OUT("sv rc=%d o=%s", rc, otext);
+    if (rc == CIF_OK) {
+        cif_handler_tp handler;
+        walk_ctx ctx;
+        int r2 = cif_container_get_value(b, NAME_X, &g);
+        OUT(" g="); if ((r2 == CIF_OK || r2 == CIF_AMBIGUOUS_ITEM) && g != NULL) fdump_pub(stdout, g); else OUT("!%d", r2);
+        OUT(" i=");
+        mm = open_memstream(&mtext, &msz);
+        r2 = cif_container_get_item_loop(b, NAME_X, &loop);
+        if (r2 == CIF_OK) r2 = cif_loop_get_packets(loop, &it);
+        if (r2 == CIF_OK) {
+            cif_packet_tp *cur = NULL;
+            while ((r2 = cif_pktitr_next_packet(it, &cur)) == CIF_OK) {
+                cif_value_tp *x = NULL;
+                if (!first) { OUT(","); fprintf(mm, ","); }
+                first = 0;
+                if (cif_packet_get_item(cur, NAME_X, &x) == CIF_OK) { fdump_pub(stdout, x); fdumpx_value(mm, x); } else { OUT("!noitem"); fprintf(mm, "!"); }
+            }
+            if (r2 != CIF_FINISHED) OUT("!iter%d", r2);
+            (void) cif_pktitr_close(it); it = NULL;
+            if (cur) cif_packet_free(cur);
+        } else OUT("!%d", r2);
+        fclose(mm);
+        if (loop) { cif_loop_free(loop); loop = NULL; }
+        memset(&handler, 0, sizeof(handler));
+        handler.handle_item = on_item;
+        ctx.out = open_memstream(&wtext, &wsz); ctx.count = 0;
+        r2 = cif_walk(cif, &handler, &ctx);
+        fclose(ctx.out);
+        OUT(" w=%s", wtext);
+        if (r2 != CIF_OK) OUT("!walk%d", r2);
+        OUT(" m=%s", mtext);
+    }
+    if (g) cif_value_free(g);
+    if (b) cif_container_free(b);
+    if (cif) cif_destroy(cif);
+    free(otext); free(wtext); free(mtext);
+}
+
 static void handle(int argc, char **argv) {
     cif_tp *cif = NULL, *scratch = NULL;
     cif_block_tp *b = NULL;
@@ -340,6 +433,7 @@ static void handle(int argc, char **argv) {
     route = argv[1];
     if (strcmp(route, "bigparse") == 0) { big_parse(argc, argv); return; }
     if (strcmp(route, "itsession") == 0) { iter_session(argc, argv); return; }
+    if (strcmp(route, "parseloop") == 0) { parse_loop(argc, argv); return; }
     mode = atoi(argv[2]);
     while (pos < argc && argv[pos][0] == '@') pos++;           /* key normalisation pairs: for the model only */
     v = build_value(argv, argc, &pos, &brc);
